@@ -11,3 +11,6 @@ if "C07" in LEVEL:
     LEVEL["C07"]["note"] += (" c07timer: the schedules carry no timestamps - the model says that timers expire in creation order (all grace periods have one length) and leaves open what happens between two expiries; a loop whose "
                              "behaviour depended on the LENGTH of a period (two different durations, a deadline computed from time.Now) is outside it, and the harness build refuses bot.go if it reaches the clock by anything but time.After. "
                              "`arms` (which delivered line creates a timer) restates the path to the one call site in handleMove and is compared with the real loop on every `ev timer` (a timer the model does not expect shows as stale/fired/idle mismatch).")
+    LEVEL["C07"]["note"] = LEVEL["C07"]["note"].replace(
+        "in the harness time.After is replaced by a package variable through a one-token build-time rewrite of a COPY of bot.go",
+        "in the harness every call time.After( is replaced by a package variable through a build-time token rewrite of a COPY of bot.go (all occurrences, at least one; the build refuses the file if it reaches the clock in another way)")
